@@ -679,7 +679,9 @@ class ModuleNamespace(Namespace):
             for key in self.callables:
                 yield (key, self.callables[key])
         for key in dir(self.module):
-            if key[0] != "_":
+            # a def written inside the <%namespace> tag takes precedence,
+            # as it does for attribute access
+            if key[0] != "_" and key not in self.callables:
                 callable_ = getattr(self.module, key)
                 if callable(callable_):
                     yield key, functools.partial(callable_, self.context)
